@@ -70,6 +70,11 @@ def cases(tier: str, base_seed: int):  # noqa: ANN201
             n += 1
             yield {"seed": base_seed + n, "knobs": {"dup": dup, "lat_jit": 0.01}, "hops": hops, "nodes": 5, "circuits": 3, "nht": 10,
                    "who": None, "faults": [], "join_delay": delay}
+    # duplicated extends while the relay waits in a slow peer lookup, with the next hop's answers re-labelled for one another
+    for hops, blind, dup in ((2, 0.3, 0.5), (3, 0.05, 0.3), (3, 0.3, 0.5), (2, 0.05, 0.3)):
+        n += 1
+        yield {"seed": base_seed + n, "knobs": {"lat_jit": 0.2, "dup": dup}, "hops": hops, "nodes": 4, "circuits": 2, "nht": 5, "who": "wire",
+               "blind": blind, "faults": [{"kind": "swap_answer", "nth": k, "bit": 6 + k} for k in range(0, 6)]}
     # the application stops waiting for the circuit (asyncio.wait_for(circuit.ready, t) cancels the future) while it is being built
     for hops in (1, 2, 3):
         for t in (0.01, 0.2):
